@@ -50,6 +50,11 @@ FS = {
     "std::io::BufWriter::<W>::into_parts": ("BUF_DISCARD", 0),
     "std::fs::File::sync_data": ("FS_SYNC", 0),
     "std::fs::File::sync_all": ("FS_SYNC", 0),
+    # a ranged write-back is NOT a durability point for appended data (no metadata, no allocation): its own kind, so
+    # that the sync-ordering rules do not take it for a sync
+    "libc::sync_file_range": ("FS_SYNC_RANGE", None),
+    # a second descriptor for the same open file description (shares its advisory lock and offset)
+    "std::fs::File::try_clone": ("FS_DUP", 0),
     # names
     "std::fs::rename": ("FS_RENAME", 0, 1),
     "std::fs::remove_file": ("FS_UNLINK", 0),
@@ -84,6 +89,8 @@ FS = {
     "tempfile::NamedTempFile::<F>::as_file": ("PURE", None),
     "tempfile::NamedTempFile::<F>::as_file_mut": ("PURE", None),
     "tempfile::NamedTempFile::<F>::keep": ("TEMP_ESCAPE", 0),
+    "tempfile::NamedTempFile::<F>::disable_cleanup": ("TEMP_ESCAPE", 0),
+    "tempfile::TempPath::disable_cleanup": ("TEMP_ESCAPE", 0),
     "tempfile::NamedTempFile::<F>::persist": ("TEMP_ESCAPE", 0),
     "tempfile::NamedTempFile::<F>::persist_noclobber": ("TEMP_ESCAPE", 0),
     "tempfile::NamedTempFile::<F>::into_temp_path": ("TEMP_ESCAPE", 0),
